@@ -2,7 +2,7 @@
 use crate::front::ReqKind;
 use crate::hist::{Ev, FaultSpec, Run};
 use mithril_common::certificate_chain::{CertificateVerifier, MithrilCertificateVerifier};
-use mithril_common::entities::{Certificate, SignedEntityTypeDiscriminants};
+use mithril_common::entities::{Certificate, ProtocolParameters, SignedEntityTypeDiscriminants};
 use mon_agg::hist::{genesis_verifier, TableRetriever};
 use rand_chacha::ChaCha20Rng;
 use serde_json::json;
@@ -12,13 +12,16 @@ use std::sync::Arc;
 use vcore::rnd;
 use vcore::Monitor;
 
-pub const RULE: &str = "seeded random histories over 4-8 consecutive epochs of 1-3 REAL signers (StateMachine + SignerRunner + real services over file-backed sqlite, real KesSignerStandard, real AggregatorHttpClient and HttpMithrilNetworkConfigurationProvider, production signature-publisher stack with 1-3 attempts; sources of /repo/mithril-signer compiled through signer-shim because mithril-signer and mithril-aggregator each define a #[global_allocator]) plus 0-2 scripted honest co-signers, against the REAL aggregator of mon-agg's Sim in the same process (shared fake chain observer / immutable observer / digester), through a loopback HTTP front before the aggregator's real warp router. Events: aggregator ticks, signer ticks, epoch changes (with or without a new stake distribution), new immutable files, new blocks (CardanoTransactions enabled in half of the histories), signer restarts / stops (whole registration windows included) / starts on their own files, aggregator restarts (registration round not yet open until its next tick) and outages, faults on individual requests (dropped request, delivered-but-reply-lost, genuine epoch-settings reply of an earlier epoch served again, genuine 'registration round not yet opened' reply served again). Oracle over the boundary log: E1 at most one acknowledged publication and one sigma per (signer, signed entity type, beacon), byte-identical re-sends counted; a failed publication is sent again while the beacon is current; E2 every sigma verifies with mithril-stm under the key THIS signer registered (as logged: last acknowledged registration sent during epoch E-2) in the signer set / stakes computed from the logged registrations, and the real aggregator accepts it (201/202; 410 = late; any other reply to a well-formed signature while the aggregator is at epoch E or E-1 is a violation; a buffered signature must be taken over when the aggregator opens that very message); E3 signatures only in ReadyToSign of the current epoch and with an eligible acknowledged registration; E4 after 8 consecutive undisturbed ticks of an epoch (aggregator reachable, working, same epoch) a signer has registered for the round of the epoch and, if it holds the key in force, has signed (also after a restart); all certificates the aggregator sealed verify with the public verifier. Non-trivial = a signature of a real signer accepted (201/202) by the aggregator in a signer history that already contained a fault / restart / stop; distinct by (history, signer, beacon). evaluations = oracle judgements (registrations, signature publications, retry / hand-over / progress checks, certificates, histories).";
+pub const RULE: &str = "seeded random histories over 4-8 consecutive epochs of 1-3 REAL signers (StateMachine + SignerRunner + real services over file-backed sqlite, real KesSignerStandard, real AggregatorHttpClient and HttpMithrilNetworkConfigurationProvider, production signature-publisher stack with 1-3 attempts; sources of /repo/mithril-signer compiled through signer-shim because mithril-signer and mithril-aggregator each define a #[global_allocator]) plus 0-2 scripted honest co-signers, against the REAL aggregator of mon-agg's Sim in the same process, through a loopback HTTP front before the aggregator's real warp router. The aggregator and every real signer have their OWN fake chain observer (their Cardano node: epoch, chain point, stake distribution; ticker, registration and stake recording of a signer read its own); the harness copies the world's state into a signer's node before each of its ticks, except during a node-lag window; immutable file observer and digester are shared. Events: aggregator ticks, signer ticks, epoch changes (with or without a new stake distribution), new immutable files, new blocks (CardanoTransactions enabled in half of the histories), signer restarts / stops (whole registration windows included) / starts on their own files, aggregator restarts (registration round not yet open until its next tick) and outages, faults on individual requests (dropped request, delivered-but-reply-lost, genuine epoch-settings reply of an earlier epoch served again, genuine 'registration round not yet opened' reply served again); PROTOCOL PARAMETER CHANGES: in 1/3 of the random histories the aggregator is restarted once or twice, at a random point of an epoch early enough for the new keys to come into force, with k and/or m and/or phi_f changed in its configuration (k 3-5, m 60-119, phi_f 0.9-0.97) -- the real aggregator then announces the new parameters for a later registration round under its own epoch offsets, so that for one epoch the keys in force and the keys of the next epoch were made under different parameters; NODE LAG: in 1/2 of the random histories, at 45% of the epoch changes the own node of one real signer keeps showing the old epoch (old stake distribution, old chain point) for 1-4 of that signer's ticks and then catches up; in half of the windows that signer is restarted (or started) inside the window, the aggregator mostly answers for the new epoch already (or is down / restarted / not yet ticked, as the other events have it), the lagging signer is ticked soon and new immutable files appear meanwhile. Five histories are scripted without any other fault: honest; one signer down for a whole epoch; its registrations dropped for a whole epoch; the aggregator restarted with k, m and phi_f changed during the second and fourth epoch; one signer restarted while its node lags for 3 ticks at the changes to the third and fifth epoch, new stake distribution at every change. Model (harness's own, from the boundary log only, epoch arithmetic written out): a registration sent while the sender's node shows chain epoch c and acknowledged by the aggregator is in force for signing at c+2, with the stake of the chain's distribution of epoch c, under the protocol parameters the REAL aggregator announced for the registration round of epoch c (signer_registration_protocol of its genuine /epoch-settings replies whose epoch is c -- to the signers, or to the harness's own request after every aggregator tick; the harness never computes a parameter set; the genesis rounds are the fixture's); the scripted co-signers make their keys with the parameters of the genuine epoch-settings reply they get when they register (and wait while it announces another epoch), exactly as a real signer. Oracle over the boundary log, every signature judged for the epoch its signer's OWN node shows (= the world's unless the node lags): E1 at most one acknowledged publication and one sigma per (signer, signed entity type, beacon), byte-identical re-sends counted; a failed publication is sent again while the beacon is current; E2 every sigma verifies with mithril-stm under the key THIS signer registered (as logged: last acknowledged registration sent during epoch E-2) in the signer set / stakes / announced parameters computed from the log, and the real aggregator accepts it (201/202; 410 = late; any other reply to a well-formed signature while the aggregator is at epoch E or E-1 is a violation; a buffered signature must be taken over when the aggregator opens that very message); E3 signatures only in ReadyToSign of the current epoch and with an eligible acknowledged registration; E4 after 8 consecutive undisturbed ticks of an epoch (aggregator reachable, working, same epoch, the signer's node caught up: a tick inside a lag window is a disturbance) a signer has registered for the round of the epoch and, if it holds the key in force, has signed (also after a restart); all certificates the aggregator sealed (across the parameter changes) verify with the public verifier. Non-trivial = a signature of a real signer accepted (201/202) by the aggregator in a signer history that already contained a fault / restart / stop / node lag; distinct by (history, signer, beacon). evaluations = oracle judgements (registrations, signature publications, retry / hand-over / progress checks, certificates, histories). Counters: histories_with_a_protocol_parameter_change, histories_with_a_node_lag_window, signatures_judged:under_changed_protocol_parameters / :in_an_epoch_whose_next_protocol_parameters_differ / :while_the_signers_node_lagged / :after_a_node_lag_in_the_same_epoch / :within_3_epochs_after_a_node_lag.";
 
 pub const ASSUMPTIONS: &[&str] = &[
-    "doubles for the Cardano node only (chain observer, immutable file observer, digester shared by both sides; dumb block scanner)",
+    "doubles for the Cardano node only (one fake chain observer per node -- the aggregator's and each real signer's; immutable file observer and digester shared by both sides; dumb block scanner)",
     "signed entity types enabled: MithrilStakeDistribution, CardanoStakeDistribution, CardanoDatabase, and CardanoTransactions in half of the histories (dumb block scanners fed with the same blocks on every node)",
     "restarts happen between ticks (clean stop); ticks of the different nodes do not overlap in time",
     "faults are injected per HTTP request at the front: 503 without delivery, 504 after delivery, replay of a genuine earlier epoch-settings reply",
+    "protocol parameters change only through the aggregator's configuration at a restart (as an operator does it); the ranges keep every signer winning lotteries and the quorum reachable",
+    "a signer's node lags by at most one epoch, only right after an epoch change, and shows a consistent old state (epoch, chain point, stake distribution) until it catches up; it never goes backwards; the immutable file number is not part of the lag (shared observer)",
+    "the parameters of a registration round are taken from the signer_registration_protocol field of the aggregator's genuine epoch-settings replies (still served by the pinned tree, marked deprecated); the harness cross-checks them against /protocol-configuration/{epoch+1} as a diagnostic only",
     "the signers' key generation uses the operating system's randomness (code under test); the schedule is seeded",
 ];
 
@@ -41,23 +44,60 @@ fn fault_specs(rng: &mut ChaCha20Rng) -> Vec<FaultSpec> {
     v
 }
 
+/// protocol parameters that differ from `cur` in k and/or m and/or phi_f (small ranges: every signer
+/// still wins lotteries, the quorum stays reachable)
+fn changed_parameters(rng: &mut ChaCha20Rng, cur: &ProtocolParameters) -> (u64, u64, f64) {
+    loop {
+        let k = if rnd::chance(rng, 1, 2) { 3 + rnd::below(rng, 3) } else { cur.k };
+        let m = if rnd::chance(rng, 1, 2) { 60 + rnd::below(rng, 60) } else { cur.m };
+        let phi_f = if rnd::chance(rng, 1, 2) { *rnd::pick(rng, &[0.9, 0.92, 0.95, 0.97]) } else { cur.phi_f };
+        if k != cur.k || m != cur.m || phi_f != cur.phi_f {
+            return (k, m, phi_f);
+        }
+    }
+}
+
 /// `scenario`: None = random history; "honest" = no fault at all; "missed-round" = no fault except that
 /// real signer 1 (of 2, plus one scripted co-signer) is down during the whole third epoch;
-/// "lost-registration" = no fault except that its registration requests are dropped during that epoch
+/// "lost-registration" = no fault except that its registration requests are dropped during that epoch;
+/// "parameter-change" = no fault except that the aggregator is restarted with changed protocol
+/// parameters during the second (and fourth) epoch; "node-lag" = no fault except that at the changes to
+/// the third and fifth epoch (new stake distribution at every change) real signer 1 is restarted while
+/// its own node stays at the old epoch for its next 3 ticks (a new immutable file appears meanwhile)
 pub async fn one_history(mon: &mut Monitor, rng: &mut ChaCha20Rng, dir: PathBuf, hid: &str, scenario: Option<&str>) -> anyhow::Result<()> {
     let honest = scenario.is_some();
     let missed_round = scenario == Some("missed-round");
     // "lost-registration": no fault except that every registration request of real signer 1 is dropped
     // during the whole third epoch
     let lost_registration = scenario == Some("lost-registration");
+    let scripted_parameter_change = scenario == Some("parameter-change");
+    let scripted_node_lag = scenario == Some("node-lag");
     let mut types = vec![SignedEntityTypeDiscriminants::CardanoStakeDistribution, SignedEntityTypeDiscriminants::CardanoDatabase];
     let with_transactions = !honest && rnd::chance(rng, 1, 2);
     if with_transactions {
         types.insert(1, SignedEntityTypeDiscriminants::CardanoTransactions);
         mon.count("histories_with_cardano_transactions");
     }
-    let mut run = Run::start(dir, rng, hid, types, if missed_round || lost_registration { Some((2, 1)) } else { None }).await?;
-    let n_epochs = 4 + rnd::below(rng, 5);
+    let mut run = Run::start(dir, rng, hid, types, if honest && scenario != Some("honest") { Some((2, 1)) } else { None }).await?;
+    let mut n_epochs = 4 + rnd::below(rng, 5);
+    if scripted_parameter_change || scripted_node_lag {
+        n_epochs = n_epochs.max(6);
+    }
+    // ---- protocol parameter changes: epochs (index within the history) during which the aggregator is
+    // restarted with changed parameters; early enough for the keys registered under the new parameters
+    // to come into force before the history ends
+    let mut parameter_change_in: Vec<u64> = vec![];
+    if scripted_parameter_change {
+        parameter_change_in = vec![1, 3];
+    } else if !honest && rnd::chance(rng, 1, 3) {
+        let first = rnd::below(rng, n_epochs - 2);
+        parameter_change_in.push(first);
+        if first + 1 < n_epochs - 2 && rnd::chance(rng, 1, 3) {
+            parameter_change_in.push(first + 1 + rnd::below(rng, n_epochs - 2 - (first + 1)));
+        }
+    }
+    // ---- node lag: does this history contain lag windows at all
+    let lag_history = scripted_node_lag || (!honest && rnd::chance(rng, 1, 2));
     let n_real = run.n_real();
     let n_scripted = run.scripted.len();
     mon.count(&format!("histories_with_{n_real}_real_signers"));
@@ -66,11 +106,17 @@ pub async fn one_history(mon: &mut Monitor, rng: &mut ChaCha20Rng, dir: PathBuf,
         mon.count("histories_scripted:one_signer_down_for_one_whole_epoch");
     } else if lost_registration {
         mon.count("histories_scripted:registrations_of_one_signer_dropped_for_one_whole_epoch");
+    } else if scripted_parameter_change {
+        mon.count("histories_scripted:aggregator_restarted_with_changed_parameters_no_other_fault");
+    } else if scripted_node_lag {
+        mon.count("histories_scripted:restarted_signer_with_lagging_node_at_epoch_changes_no_other_fault");
     } else if honest {
         mon.count("histories_without_any_fault");
     }
     let debug = std::env::var("VERIF_DEBUG").is_ok();
     let mut dead = false;
+    // (signer, restart it right after the epoch change) of the lag window opened by the last epoch change
+    let mut lag_opened: Option<(usize, bool)> = None;
     for epoch_i in 0..n_epochs {
         // ---- who is kept down during this whole epoch (misses the registration round)
         let mut down_for_epoch = vec![false; n_real];
@@ -93,14 +139,46 @@ pub async fn one_history(mon: &mut Monitor, rng: &mut ChaCha20Rng, dir: PathBuf,
             }
         }
         let scripted_registers: Vec<bool> = (0..n_scripted).map(|_| honest || rnd::chance(rng, 88, 100)).collect();
-        // ---- the aggregator usually notices the epoch promptly
-        if honest || rnd::chance(rng, 6, 10) {
+        // ---- the aggregator usually notices the epoch promptly (more often when a signer's node lags: the
+        // aggregator then answers for the new epoch while that node still shows the old one)
+        if honest || rnd::chance(rng, if lag_opened.is_some() { 8 } else { 6 }, 10) {
             run.apply(&Ev::AggTick, mon).await?;
             run.apply(&Ev::AggTick, mon).await?;
         }
+        // ---- the signer whose node lags is restarted (or started) inside the lag window
+        if let Some((i, true)) = lag_opened {
+            if !down_for_epoch[i] {
+                let ev = if run.signers[i].is_up() { Ev::SignerRestart(i) } else { Ev::SignerStart(i) };
+                run.apply(&ev, mon).await?;
+                mon.count("node_lag_windows:signer_restarted_inside_the_window");
+            }
+        }
+        let change_parameters = parameter_change_in.contains(&epoch_i);
+        if change_parameters && honest {
+            // scripted: k, m and phi_f all change
+            let cur = run.agg.sim.cfg.protocol_parameters.clone();
+            let (k, m, phi_f) = (3 + (cur.k - 3 + 1) % 3, 60 + (cur.m.max(60) - 60 + 23) % 60, if cur.phi_f == 0.95 { 0.9 } else { 0.95 });
+            run.apply(&Ev::AggRestart { parameters: Some((k, m, phi_f)) }, mon).await?;
+        }
         // ---- random part
         let len = if honest { 0 } else { 8 + rnd::usize_below(rng, 22) };
-        for _ in 0..len {
+        let change_parameters_at = if change_parameters && !honest { Some(rnd::usize_below(rng, len)) } else { None };
+        for pos in 0..len {
+            if change_parameters_at == Some(pos) {
+                let (k, m, phi_f) = changed_parameters(rng, &run.agg.sim.cfg.protocol_parameters);
+                run.apply(&Ev::AggRestart { parameters: Some((k, m, phi_f)) }, mon).await?;
+            }
+            // while a node lags: its signer ticks soon, and sometimes a new immutable file appears (a
+            // beacon of the old epoch the lagging signer has not signed yet)
+            if let Some(i) = (0..n_real).find(|i| run.signers[*i].lag_ticks_left > 0 && run.signers[*i].is_up()) {
+                if rnd::chance(rng, 30, 100) {
+                    let faults = if rnd::chance(rng, 20, 100) { fault_specs(rng) } else { vec![] };
+                    run.apply(&Ev::SignerTick { i, faults }, mon).await?;
+                }
+                if rnd::chance(rng, 12, 100) {
+                    run.apply(&Ev::NewImmutable, mon).await?;
+                }
+            }
             let roll = rnd::below(rng, 100);
             let ev = match roll {
                 0..=21 => Ev::AggTick,
@@ -120,7 +198,7 @@ pub async fn one_history(mon: &mut Monitor, rng: &mut ChaCha20Rng, dir: PathBuf,
                     let i = rnd::usize_below(rng, n_real);
                     if run.signers[i].is_up() { Ev::SignerStop(i) } else if !down_for_epoch[i] { Ev::SignerStart(i) } else { Ev::AggTick }
                 }
-                76..=77 => Ev::AggRestart,
+                76..=77 => Ev::AggRestart { parameters: None },
                 78..=81 => {
                     if run.agg_down { Ev::AggDown(false) } else if rnd::chance(rng, 1, 2) { Ev::AggDown(true) } else { Ev::AggTick }
                 }
@@ -177,6 +255,9 @@ pub async fn one_history(mon: &mut Monitor, rng: &mut ChaCha20Rng, dir: PathBuf,
                 if round == 3 && rnd::chance(rng, 1, 2) {
                     run.apply(&Ev::NewImmutable, mon).await?;
                 }
+                if scripted_node_lag && round == 1 && (0..n_real).any(|i| run.signers[i].lag_ticks_left > 0) {
+                    run.apply(&Ev::NewImmutable, mon).await?;
+                }
                 if !long && round >= 3 && run.epoch_has_certificate() {
                     break;
                 }
@@ -193,9 +274,22 @@ pub async fn one_history(mon: &mut Monitor, rng: &mut ChaCha20Rng, dir: PathBuf,
             dead = true;
             break;
         }
+        lag_opened = None;
         if epoch_i + 1 < n_epochs {
-            let restake = !honest && rnd::chance(rng, 1, 2);
-            run.apply(&Ev::EpochUp { restake }, mon).await?;
+            let restake = scripted_node_lag || (!honest && rnd::chance(rng, 1, 2));
+            // ---- node lag: one signer's own Cardano node stays at the old epoch for a few of its ticks
+            let mut lag = vec![];
+            if scripted_node_lag {
+                if epoch_i + 1 == 2 || epoch_i + 1 == 4 {
+                    lag.push((1usize, 3u32));
+                    lag_opened = Some((1, true));
+                }
+            } else if lag_history && rnd::chance(rng, 45, 100) {
+                let i = rnd::usize_below(rng, n_real);
+                lag.push((i, 1 + rnd::below(rng, 4) as u32));
+                lag_opened = Some((i, rnd::chance(rng, 1, 2)));
+            }
+            run.apply(&Ev::EpochUp { restake, lag }, mon).await?;
         }
     }
     let _ = dead;
@@ -216,6 +310,9 @@ pub async fn one_history(mon: &mut Monitor, rng: &mut ChaCha20Rng, dir: PathBuf,
             "epochs": run.chain_epoch - run.start_epoch + 1,
             "steps": run.step,
             "certificates": run.snap.certificates.len(),
+            "aggregator_restarts_with_changed_parameters": run.parameter_changes.iter().map(|(e, st, p)| json!({"chain_epoch": e, "step": st, "k": p.k, "m": p.m, "phi_f": p.phi_f})).collect::<Vec<_>>(),
+            "registration_parameters_announced_by_the_aggregator": run.model.announced.iter().map(|(e, p)| json!([e, p.k, p.m, p.phi_f])).collect::<Vec<_>>(),
+            "node_lag_windows": run.lag_windows,
             "prefix": run.log.iter().take(14).collect::<Vec<_>>(),
         }));
     }
